@@ -129,6 +129,7 @@ class Acceptor:
         self.tolerate = set()      # rule ids that are reported but do not abort (known findings mode)
         self.threw = False
         self.in_round = None
+        self.sched_stack = []       # machines whose scheduling point is being executed (outermost first)
         self.ledger_errors = []
         self.in_entry_of = None
         self.zoo_stats = None
@@ -240,7 +241,20 @@ class Acceptor:
                     mi.comp = sorted((mi.active.index(x), x) for x in mi.comp_aborted if x in mi.active)
                     mi.comp_aborted.clear()
                     self.counts['completion_reoffered'] = self.counts.get('completion_reoffered', 0) + 1
-                    self.schedule(mi)
+                    # offered by the completion event of an enclosing machine that is at its scheduling point:
+                    # that machine is busy dispatching it
+                    busy = []
+                    x = mi.parent
+                    while x is not None:
+                        if x in self.sched_stack and not x.processing:
+                            x.processing = True
+                            busy.append(x)
+                        x = x.parent
+                    try:
+                        self.schedule(mi)
+                    finally:
+                        for x in busy:
+                            x.processing = False
                     continue
             if got.k != 'G' or got.v != 0:
                 return
@@ -260,6 +274,14 @@ class Acceptor:
             # completion event, so calls made from it (or from exception_caught) find the machine busy
             was = mi.processing
             mi.processing = True
+            # a completion event forwarded by an enclosing machine: that machine is busy dispatching it
+            busy = []
+            x = mi.parent
+            while x is not None:
+                if x in self.sched_stack and not x.processing:
+                    x.processing = True
+                    busy.append(x)
+                x = x.parent
             try:
                 self.after_cb('G', got.site, mi)
             except ModelThrow as t:
@@ -272,6 +294,8 @@ class Acceptor:
                     raise RoundAbort()
             finally:
                 mi.processing = was
+                for x in busy:
+                    x.processing = False
             if not was and mi.queue:
                 self.schedule(mi)
 
@@ -950,6 +974,13 @@ class Acceptor:
         if mi.processing:
             return
         mi.sched_op = self.counts['ops']
+        self.sched_stack.append(mi)
+        try:
+            self.schedule_loop(mi, after_handled, src, allow_queue)
+        finally:
+            self.sched_stack.pop()
+
+    def schedule_loop(self, mi, after_handled, src, allow_queue):
         self.completion_round(mi)
         guard = 0
         while True:
